@@ -603,6 +603,16 @@ func (g *Gen) stmt(depth int) []Stmt {
 		b2i(deep) * f.Coroutines, // 18 coroutines
 		f.Fenv,                 // 19 fenv
 		f.Varargs * b2i(deep),  // 20 vararg function
+		3,                         // 21 constant folding
+		3,                         // 22 comparison contexts
+		sgn(f.Tables),             // 23 big table constructor
+		b2i(deep) * (1 + f.Closures/3), // 24 deep upvalue / repeat closure
+		b2i(deep) * (1 + f.Funcs/4),    // 25 method chain
+		b2i(deep) * f.Fenv,        // 26 setfenv level
+		b2i(deep) * (f.Errors/2),  // 27 error levels
+		2,                         // 28 float for
+		b2i(deep) * f.Meta,        // 29 index chain / concat-eq
+		b2i(deep) * f.Coroutines,  // 30 coroutine transfer matrix
 	}
 	switch g.R.Pick(w...) {
 	case 0:
@@ -674,8 +684,34 @@ func (g *Gen) stmt(depth int) []Stmt {
 		return g.coroutineShape(depth, d)
 	case 19:
 		return g.fenvShape(depth, d)
-	default:
+	case 20:
 		return g.varargShape(depth, d)
+	case 21:
+		return g.foldShape(d)
+	case 22:
+		return g.compareShape(d)
+	case 23:
+		return g.bigTable(d)
+	case 24:
+		if g.R.Bool() {
+			return g.deepUpvalue(d)
+		}
+		return g.repeatClosure(d)
+	case 25:
+		return g.methodChain(d)
+	case 26:
+		return g.fenvLevel(d)
+	case 27:
+		return g.errorLevels(d)
+	case 28:
+		return g.floatFor(d)
+	case 29:
+		if g.R.Bool() {
+			return g.indexChain(d)
+		}
+		return g.concatEqMeta(d)
+	default:
+		return g.coTransfer(d)
 	}
 }
 
@@ -758,6 +794,10 @@ func (g *Gen) assign(d int) []Stmt {
 		if v := g.pickVar(t); v != nil {
 			if v.Ty == TInt && t == TNum { // keep ints integral
 				t = TInt
+			}
+			if t == TStr && (g.loops > 0 || g.fnLevel > 0) {
+				// no s = s .. s inside loops or functions called from loops: lengths would explode
+				return []Stmt{&Assign{LHS: []Expr{g.ref(v)}, Es: []Expr{&Bin{Op: "..", A: str(words[g.R.Intn(len(words))]), B: g.exprInt(1)}}}}
 			}
 			return []Stmt{&Assign{LHS: []Expr{g.ref(v)}, Es: []Expr{g.exprOf(t, d)}}}
 		}
